@@ -3,12 +3,16 @@
 (*   Scenario  start of a scenario (a population + the nodes that go through it)                            *)
 (*   Chain     a built history (layout group grp, chain a | b | a2): per identity the facts that its BLOCKS   *)
 (*             record before the block that finishes the validation (prior status, required flips done,      *)
-(*             candidate of the lottery, answers hash / short answers / long answers / evidence included,    *)
-(*             number of evidence maps that confirm it, number of evidence maps)                             *)
+(*             candidate of the lottery, its shard and position there, answers hash / short answers / long   *)
+(*             answers / evidence included, number of evidence maps OF ITS OWN SHARD that confirm it (an      *)
+(*             evidence map speaks about the candidates of its sender's shard, its bits are positions in     *)
+(*             that shard), number of evidence maps of its shard)                                            *)
 (*   Step      one action of one node's behaviour (Add, Restart, Validate, ValidateAlt, Propose, Switch,     *)
 (*             Rollback), as exported by TLC from CeremonyRun                                                *)
 (*   Eval      one call of the real ApplyNewEpoch: digest of the returned TotalValidationResult, per         *)
-(*             identity (new status, birthday, number of scores, last score) read from the evaluated state   *)
+(*             identity (new status, birthday, number of scores, last score) read from the evaluated state,  *)
+(*             and whether the ceremony treated it as having missed the validation (its own per-identity     *)
+(*             record, published through the stats collector: 0 no, 1 yes, 2 not evaluated as a candidate)   *)
 (*   Commit    the node after inserting the block that finishes the validation: verdict of AddBlock, roots,  *)
 (*             committed statuses                                                                            *)
 (* The first Eval / Commit of a chain comes from the node that built it (the proposer); it is the reference. *)
@@ -17,8 +21,11 @@
 (*                       accepts the block and reaches the reference roots, and the layout groups of a       *)
 (*                       scenario (same transactions, other positions) have the same result                  *)
 (*   AbsentNotValidated  an identity whose blocks record no short or no long answers, that no majority of    *)
-(*                       the recorded evidence maps confirms, that was no candidate or lacked required flips *)
-(*                       is not Newbie / Verified / Human afterwards                                         *)
+(*                       the recorded evidence maps of its own shard confirms, that was no candidate or      *)
+(*                       lacked required flips is not Newbie / Verified / Human afterwards                   *)
+(*   PresentNotMissed    the converse: a candidate with its required flips whose blocks record short and     *)
+(*                       long answers and whom a majority of its own shard's evidence maps confirms is not   *)
+(*                       treated as having missed the validation                                             *)
 (*   InviteKilled        an invitation that was not activated is terminated                                  *)
 (*   DeadStaysDead       killed / undefined identities stay so                                               *)
 (* Drift (reported, not a verdict): an evaluation whose observed class (result of chain a / of chain b /     *)
@@ -51,13 +58,17 @@ C(e) == [root |-> e.root, idroot |-> e.idroot, post |-> e.post]
 Validated(s) == s \in {3, 7, 8}          \* Verified, Newbie, Human
 Missed(f) == \/ ~f.cand \/ ~f.flipsDone
              \/ ~f.short \/ ~f.long
-             \/ 2 * f.appr <= f.maps       \* not confirmed by a majority of the recorded evidence maps
+             \/ 2 * f.appr <= f.maps       \* not confirmed by a majority of the recorded evidence maps of its own shard
 
 \* clauses broken by the per-identity statuses `s` (a sequence of statuses) under facts F
 StatusClauses(F, s, killedGone) ==
     (IF \E k \in 1..Len(F) : Missed(F[k]) /\ Validated(s[k]) THEN {"AbsentNotValidated"} ELSE {})
     \cup (IF \E k \in 1..Len(F) : F[k].prev = 1 /\ s[k] # 5 /\ ~(killedGone /\ s[k] = 0) THEN {"InviteKilled"} ELSE {})
     \cup (IF \E k \in 1..Len(F) : F[k].prev \in {0, 5} /\ s[k] \notin {0, 5} THEN {"DeadStaysDead"} ELSE {})
+
+\* ms[k]: 0 = evaluated and not treated as missed, 1 = treated as missed, 2 = not evaluated as a candidate
+PresentClauses(F, ms) ==
+    IF \E k \in 1..Len(F) : ~Missed(F[k]) /\ ms[k] # 0 THEN {"PresentNotMissed"} ELSE {}
 
 Report(cs, e) ==
     LET new == {c \o ":" \o e.variant : c \in cs} \ bad
@@ -110,6 +121,7 @@ TEval == /\ l <= Len(Trace) /\ Trace[l].ev = "Eval" /\ l' = l + 1
                 \* is reported by SameResult)
                 cl == (IF same THEN {} ELSE {"SameResult"})
                       \cup (IF isRef /\ ~e.failed THEN StatusClauses(F, [i \in 1..Len(e.st) |-> e.st[i][1]], FALSE) ELSE {})
+                      \cup (IF isRef /\ ~e.failed /\ e.msok THEN PresentClauses(F, e.ms) ELSE {})
             IN /\ refs' = IF isRef THEN Put(refs, k, R(e)) ELSE refs
                /\ Report(cl, IF isRef /\ ~same THEN [e EXCEPT !.variant = "block-layout"] ELSE e)
                /\ IF e.node \in DOMAIN nodes /\ nodes[e.node].pred # ObsClass(e)
